@@ -126,8 +126,7 @@ Section ContainerProofs.
   Qed.
 
   (** ---- the writer ---- *)
-  Variable sync_interval : Z.
-  Notation wstep := (wstep compress sync sync_interval).
+  Notation wstep := (wstep compress sync).
   Notation flush := (flush compress sync).
   Notation dump := (dump compress sync).
 
@@ -146,7 +145,7 @@ Section ContainerProofs.
       buf st = flat_map wire pend /\ cnt st = len pend /\ Forall (typedn n e s) pend /\
       subm = flat_map brecs bls ++ pend.
 
-  Lemma inv_create meta : Inv meta (wcreate sync meta) [].
+  Lemma inv_create meta si : Inv meta (wcreate sync meta si) [].
   Proof. exists [], []. unfold wcreate. cbn [out buf cnt flat_map app]. rewrite app_nil_r. repeat split; apply Forall_nil. Qed.
 
   Lemma inv_dump meta st subm : len subm < 2 ^ 63 -> small (buf st) -> Inv meta st subm ->
@@ -193,9 +192,9 @@ Section ContainerProofs.
   (* every payload this step emits is framable *)
   Definition small_step (st : wstate) (o : wop) : Prop :=
     match o with
-    | OWrite a => sync_interval <= len (buf st ++ wire a) -> small (buf st ++ wire a)
+    | OWrite a => sint st <= len (buf st ++ wire a) -> small (buf st ++ wire a)
     | OWriteBad => True
-    | OFlush | OReopen => pending st = true -> small (buf st)
+    | OFlush | OReopen _ => pending st = true -> small (buf st)
     | OBlock ls => (pending st = true -> small (buf st)) /\ small (flat_map wire_l ls)
     end.
 
@@ -204,14 +203,14 @@ Section ContainerProofs.
   Proof.
     intros Hl Hok Hsm HI. destruct o; cbn [Container.wstep submitted_of small_step] in *.
     - (* write *)
-      assert (HI' : Inv meta (mkW (out st) (buf st ++ wire a) (cnt st + 1)) (subm ++ [a])).
+      assert (HI' : Inv meta (mkW (out st) (buf st ++ wire a) (cnt st + 1) (sint st)) (subm ++ [a])).
       { destruct HI as (bls & pend & Hb & Ho & Hbuf & Hc & Hp & Hs). exists bls, (pend ++ [a]).
         cbn [out buf cnt]. rewrite flat_map_app, Hbuf, Hc, len_app. cbn [flat_map]. rewrite app_nil_r.
         repeat split; try assumption.
         - apply Forall_app. split; [exact Hp|apply Forall_cons; [exact Hok|apply Forall_nil]].
         - rewrite Hs, app_assoc. reflexivity. }
-      cbn [buf]. destruct (sync_interval <=? len (buf st ++ wire a)) eqn:Esi; [|exact HI'].
-      assert (Hs' : small (buf (mkW (out st) (buf st ++ wire a) (cnt st + 1)))) by (cbn [buf]; apply Hsm; lia).
+      cbn [buf]. destruct (sint st <=? len (buf st ++ wire a)) eqn:Esi; [|exact HI'].
+      assert (Hs' : small (buf (mkW (out st) (buf st ++ wire a) (cnt st + 1) (sint st)))) by (cbn [buf]; apply Hsm; lia).
       destruct (inv_dump meta _ _ Hl Hs' HI') as (bls & H1 & H2 & H3 & H4 & H5).
       eapply flushed_inv; eassumption.
     - rewrite app_nil_r. exact HI.
@@ -256,13 +255,13 @@ Section ContainerProofs.
 
   (** C07: after any history, a flush makes the stream read back as exactly the records submitted so far *)
   Theorem history_reads_back meta ops hf : meta_ok meta -> Forall op_ok ops ->
-    small_run (wcreate sync meta) ops ->
+    forall si, small_run (wcreate sync meta si) ops ->
     len (submitted ops) < 2 ^ 63 -> (3 <= hf)%nat ->
     exists nb, forall k, (nb < k)%nat ->
-      read_container hf k (out (flush (run (wcreate sync meta) ops))) = (submitted ops, EndOK).
+      read_container hf k (out (flush (run (wcreate sync meta si) ops))) = (submitted ops, EndOK).
   Proof.
-    intros Hm Hok Hsm Hl Hf.
-    destruct (inv_run meta ops _ [] Hl Hok Hsm (inv_create meta)) as [HI Hfin]. cbn [app] in HI.
+    intros Hm Hok si Hsm Hl Hf.
+    destruct (inv_run meta ops _ [] Hl Hok Hsm (inv_create meta si)) as [HI Hfin]. cbn [app] in HI.
     destruct (inv_flush meta _ _ Hl Hfin HI) as (bls & H1 & H2 & _ & _ & H5).
     exists (length bls). intros k' Hk. rewrite H2, H5. apply read_container_ok; assumption.
   Qed.
@@ -271,7 +270,7 @@ Section ContainerProofs.
   Theorem wstep_appends st o : exists x, out (wstep st o) = out st ++ x.
   Proof.
     destruct o; cbn [Container.wstep].
-    - destruct (sync_interval <=? _); cbn [Container.dump out]; eexists; [reflexivity|symmetry; apply app_nil_r].
+    - destruct (sint st <=? _); cbn [Container.dump out]; eexists; [reflexivity|symmetry; apply app_nil_r].
     - exists []. symmetry. apply app_nil_r.
     - unfold Container.flush. destruct (pending st); cbn [Container.dump out]; eexists; [reflexivity|symmetry; apply app_nil_r].
     - unfold Container.flush. destruct (pending st); cbn [Container.dump out]; eexists; [rewrite <- app_assoc|]; reflexivity.
